@@ -496,11 +496,12 @@ func (p *ProjectRunner) runningProcessesReverseDependencies() map[string]map[str
 	for _, process := range p.runningProcesses {
 		for k := range process.procConf.DependsOn {
 			if runningProc, ok := p.runningProcesses[k]; ok {
-				if _, ok := reverseDependencies[runningProc.getName()]; !ok {
-					dep := make(map[string]*Process)
-					dep[process.getName()] = process
+				dep, ok := reverseDependencies[runningProc.getName()]
+				if !ok {
+					dep = make(map[string]*Process)
 					reverseDependencies[runningProc.getName()] = dep
 				}
+				dep[process.getName()] = process
 			} else {
 				continue
 			}
